@@ -42,6 +42,10 @@ type Case struct {
 	Side  string    `json:"side"` // requestor responder
 	K     int       `json:"k"`    // panic at the k-th block (0-based) of request 1's traversal
 	Early bool      `json:"early"` // request 2 is issued before request 1 (else after)
+	// NoCallback: neither instance is given a panic callback (the default configuration). Storage-function
+	// sites only: a regression at a traverser site without a callback wedges on a mutex, which virtual time
+	// cannot tell from slowness (inconclusive, never a verdict)
+	NoCallback bool `json:"no_callback,omitempty"`
 }
 
 func gen(t *rapid.T) Case {
@@ -53,6 +57,9 @@ func gen(t *rapid.T) Case {
 	}
 	c.K = rapid.IntRange(0, 5).Draw(t, "k")
 	c.Early = rapid.Bool().Draw(t, "early")
+	if (c.Site == "read" || c.Site == "write") && rapid.Bool().Draw(t, "nocallback") {
+		c.NoCallback = true
+	}
 	return c
 }
 
@@ -186,8 +193,13 @@ func exchange(c Case, inject bool) (*outcome, bool) {
 	}
 	ro := sim.Run(outerT, func(w *sim.World) {
 		qs, ss := sim.NewStore(nil, true), sim.NewStore(respData, true)
-		rq := w.AddInstanceLS(scen.ReqID, qs, mkLS(qs, "requestor"), gsimpl.PanicCallback(func(v any, _ string) { mu.Lock(); o.cbReq = append(o.cbReq, v); mu.Unlock() }))
-		rs := w.AddInstanceLS(scen.RespID, ss, mkLS(ss, "responder"), gsimpl.PanicCallback(func(v any, _ string) { mu.Lock(); o.cbResp = append(o.cbResp, v); mu.Unlock() }))
+		var qopts, sopts []gsimpl.Option
+		if !c.NoCallback {
+			qopts = append(qopts, gsimpl.PanicCallback(func(v any, _ string) { mu.Lock(); o.cbReq = append(o.cbReq, v); mu.Unlock() }))
+			sopts = append(sopts, gsimpl.PanicCallback(func(v any, _ string) { mu.Lock(); o.cbResp = append(o.cbResp, v); mu.Unlock() }))
+		}
+		rq := w.AddInstanceLS(scen.ReqID, qs, mkLS(qs, "requestor"), qopts...)
+		rs := w.AddInstanceLS(scen.RespID, ss, mkLS(ss, "responder"), sopts...)
 		rs.GS.RegisterIncomingRequestHook(func(p peer.ID, r graphsync.RequestData, ha graphsync.IncomingRequestHookActions) {
 			ha.ValidateRequest()
 			ha.UseLinkTargetNodePrototypeChooser(chooser("responder"))
@@ -293,7 +305,10 @@ func judge(c Case) *pbt.Verdict {
 			found = true
 		}
 	}
-	if !found {
+	if c.NoCallback {
+		v.Label("no-panic-callback-configured")
+	}
+	if !found && !c.NoCallback {
 		return v.Failf("the %s's panic callback was not given the panic raised in its %s function (callback calls: requestor %d, responder %d; request 1 errors: %v)", c.Side, c.Site, len(got.cbReq), len(got.cbResp), got.errs1)
 	}
 	if got.key2 != base.key2 {
